@@ -455,8 +455,42 @@ func nonNilAt(v ssa.Value, b *ssa.BasicBlock, depth int) bool {
 				return true
 			}
 			if errWrapNames[q] && len(x.Common().Args) > 0 {
-				if nonNilAt(x.Common().Args[0], x.Block(), depth+1) {
+				blk := x.Block()
+				if blk == nil {
+					blk = b // a detached value (a helper's expression in the caller's terms): judged where the call stands
+				}
+				if nonNilAt(x.Common().Args[0], blk, depth+1) {
 					return true
+				}
+			}
+			// a wrapping helper of the module (`wrapCause(kind, err, text)`): every return of the helper, with its
+			// parameters replaced by this call's arguments, is non-nil
+			if h := x.Common().StaticCallee(); h != nil && h.Blocks != nil && !x.Common().IsInvoke() && h.Pkg != nil && h.Pkg.Pkg != nil && strings.HasPrefix(h.Pkg.Pkg.Path(), modPath) && depth < 4 {
+				res := h.Signature.Results()
+				if res.Len() > 0 && isErrorType(res.At(res.Len()-1).Type()) {
+					bind := bindParams(h, x)
+					rets := Returns(h)
+					all := len(rets) > 0
+					for _, ret := range rets {
+						rv := retVals(ret)
+						if len(rv) == 0 {
+							all = false
+							break
+						}
+						last := rv[len(rv)-1]
+						tv := translateValue(last, bind, 0)
+						if tv == last {
+							// not expressed over the parameters: judged inside the helper
+							if !nonNilAt(last, ret.Block(), depth+1) {
+								all = false
+							}
+						} else if !nonNilAt(tv, b, depth+1) {
+							all = false
+						}
+					}
+					if all {
+						return true
+					}
 				}
 			}
 		}
@@ -474,6 +508,9 @@ func nonNilAt(v ssa.Value, b *ssa.BasicBlock, depth int) bool {
 		return nonNilAt(x.X, b, depth+1)
 	}
 	// dominated by the non-nil edge of a test of v
+	if b == nil {
+		return false
+	}
 	fn := b.Parent()
 	edges := NilEdges(fn, map[ssa.Value]bool{v: true}, false)
 	if MustPass(fn, edges, b) {
